@@ -86,6 +86,58 @@ func runC18(c *Ctx) {
 			}
 			return s, false
 		}
+		// the comparator written with the library's three-way helpers: cmp.Or(cmp.Compare(a, b), cmp.Compare(c, d)) < 0 —
+		// the first comparison that is not "equal" decides
+		if terms, neg, isTW := c.threeWayLess(less); isTW {
+			points := []string{"ti", "tj", "ni", "nj"}
+			ok := true
+			n := 0
+			var w []string
+			for ti := range terms {
+				for k := 0; k < 2; k++ {
+					var o bool
+					terms[ti][k], o = sym(terms[ti][k])
+					if !o {
+						ok = false
+						w = append(w, "term "+terms[ti][k]+" is not a transaction time / number of element i or j")
+					}
+				}
+			}
+			for _, ranks := range weakOrderings(4) {
+				if !ok {
+					break
+				}
+				rk := map[string]int{}
+				for k, p := range points {
+					rk[p] = ranks[k]
+				}
+				n++
+				v := 0
+				for _, t := range terms {
+					if rk[t[0]] < rk[t[1]] {
+						v = -1
+					} else if rk[t[0]] > rk[t[1]] {
+						v = 1
+					}
+					if v != 0 {
+						break
+					}
+				}
+				got := v < 0
+				if neg {
+					got = v > 0
+				}
+				want := rk["ti"] < rk["tj"] || (rk["ti"] == rk["tj"] && rk["ni"] < rk["nj"])
+				if got != want {
+					ok = false
+					if len(w) < 6 {
+						w = append(w, fmt.Sprintf("ordering %s: less(i,j)=%v, lexicographic (time, number) order says %v", describeOrdering(points, ranks), got, want))
+					}
+				}
+			}
+			c.Check("C18.O1", key, ok, less.Pos(), fmt.Sprintf("comparator (three-way form) decided on %d weak orderings of (time_i, time_j, number_i, number_j)", n), w...)
+			continue
+		}
 		var bad []string
 		for pi := range paths {
 			for ci := range paths[pi].Conds {
@@ -278,6 +330,7 @@ func runC18(c *Ctx) {
 		}
 	}
 	// ---------------- T1
+	c.relationshipListsSeparateRule("C18.T1")
 	pk := c.Method(pDT, "Transformer", "processKeys")
 	if pk == nil {
 		c.Unresolved("C18.T1", "(*didtransformer.Transformer).processKeys")
@@ -1173,6 +1226,18 @@ func (c *Ctx) metadataMapping(pMeta string) {
 			if !ok {
 				return
 			}
+			// a function literal of the filling function, called with the member's name: its store into the captured map
+			if lit := localLiteral(cl); lit != nil && lit.Parent() == from.f {
+				lenv := c.calleeEnv(&cl.Call, lit, henv)
+				forEachInstr(lit, func(in2 ssa.Instruction) {
+					if mu, isMU := in2.(*ssa.MapUpdate); isMU && strings.HasPrefix(c.Path(mu.Map, lenv), "makemap<") {
+						if k := c.Path(mu.Key, lenv); strings.HasPrefix(k, `"`) {
+							hstores = append(hstores, hstore{mu, lenv, cl})
+						}
+					}
+				})
+				return
+			}
 			g := cl.Call.StaticCallee()
 			if g == nil || g == host || !inModule(g) || g.Blocks == nil || g.Object() == nil || g.Object().Exported() || pkgPathOf(g) != pkgPathOf(host) {
 				return
@@ -1295,6 +1360,11 @@ func (c *Ctx) metadataMapping(pMeta string) {
 		"versionId":             {"VersionID"},
 		"updated":               {"VersionID", "UpdatedTime"},
 	}
+	presence := map[string]*regexp.Regexp{
+		"recoveryCommitment": regexp.MustCompile(`^\((\$1\.RecoveryCommitment (!=|==) ""|len\(\$1\.RecoveryCommitment\) (!=|==|>|<=) 0)\)=(true|false)$`),
+		"updateCommitment":   regexp.MustCompile(`^\((\$1\.UpdateCommitment (!=|==) ""|len\(\$1\.UpdateCommitment\) (!=|==|>|<=) 0)\)=(true|false)$`),
+		"anchorOrigin":       regexp.MustCompile(`^\(\$1\.AnchorOrigin (!=|==) nil(:[^)]*)?\)=(true|false)$`),
+	}
 	loopControl := regexp.MustCompile(`^\((len\(.*\) <= ι|ι < len\(.*\))\)=true$`)
 	errNilRe := regexp.MustCompile(`^\([^ ]*versions/1_0/doctransformer/metadata\.[A-Za-z]+\(.*\)#\d == nil\)=true$`)
 	entryGuard := func(cnd string) bool {
@@ -1327,6 +1397,11 @@ func (c *Ctx) metadataMapping(pMeta string) {
 				if strings.Contains(cnd, a) {
 					okC = true
 				}
+			}
+			// the optional members of the resolution model are reported whenever they are there: the test is on the whole
+			// value (not nil / not empty), not on one of the shapes it may have (an anchor origin need not be a string)
+			if okC && presence[key] != nil && !presence[key].MatchString(cnd) {
+				okC = false
 			}
 			if !okC {
 				foreign = append(foreign, cnd)
@@ -1375,7 +1450,7 @@ func (c *Ctx) metadataMapping(pMeta string) {
 		}
 		ft := map[string][]string{}
 		for _, fs := range c.storesIntoObj(objs[0]) {
-			ft[fs.Field] = append(ft[fs.Field], c.Path(fs.Val, fs.Env))
+			ft[fs.Field] = append(ft[fs.Field], c.fsPath(fs))
 		}
 		for i := 0; i < numFields(nt); i++ {
 			fld := fieldName(nt, i)
@@ -1536,7 +1611,7 @@ func (c *Ctx) genericIDRule(rule string) {
 	// (the body may sit in an unexported function the method forwards to)
 	for _, h := range append([]*ssa.Function{td}, c.helpersOf(td, 2)...) {
 		forEachInstr(h, func(in ssa.Instruction) {
-			if mu, ok := in.(*ssa.MapUpdate); ok && c.Path(mu.Key, nil) == `"id"` && strings.Contains(c.Path(mu.Value, nil), `["id"]`) {
+			if mu, ok := in.(*ssa.MapUpdate); ok && c.Path(mu.Key, nil) == `"id"` && (strings.Contains(c.Path(mu.Value, nil), `["id"]`) || strings.Contains(c.InlPath(mu.Value, nil), `["id"]`)) {
 				idStore = mu
 			}
 		})
@@ -1581,13 +1656,15 @@ func (c *Ctx) unpublishedAllListedRule(rule, pMeta string) {
 		return
 	}
 	loopControl := regexp.MustCompile(`^\((len\(.*\) <= ι|ι < len\(.*\))\)=(true|false)$`)
+	// (a test that the list is not empty holds on every iteration anyway)
+	nonEmpty := regexp.MustCompile(`^\((len\(\$0\) (!=|>) 0|0 (!=|<) len\(\$0\)|len\(\$0\) >= 1|1 <= len\(\$0\)|\$0 != nil:\[\][^)]*)\)=true$|^\((len\(\$0\) (==|<=) 0|0 (==|>=) len\(\$0\)|len\(\$0\) < 1|1 > len\(\$0\)|\$0 == nil:\[\][^)]*)\)=false$`)
 	n := 0
 	var bad []string
 	for _, h := range append([]*ssa.Function{f}, c.helpersOf(f, 1)...) {
 		for _, a := range allocsOf(h, nt) {
 			n++
 			for _, cnd := range c.condsOf(a.Block()) {
-				if loopControl.MatchString(cnd) || strings.HasPrefix(cnd, "next(range(") {
+				if loopControl.MatchString(cnd) || nonEmpty.MatchString(cnd) || strings.HasPrefix(cnd, "next(range(") {
 					continue
 				}
 				bad = append(bad, cnd)
@@ -1595,4 +1672,118 @@ func (c *Ctx) unpublishedAllListedRule(rule, pMeta string) {
 		}
 	}
 	c.Check(rule, "unpublished:every-operation-listed", n == 1 && len(bad) == 0, f.Pos(), fmt.Sprintf("the entry of an unpublished operation is built on every iteration, unconditionally (conditions: %v)", bad))
+}
+
+// relationshipListsSeparateRule: the lists of key references kept per verification relationship do not share storage:
+// where processKeys starts them off in a map literal, every entry is a slice of its own (one pre-allocated slice placed
+// under all five relationships lets an append under one overwrite what was appended under another).
+func (c *Ctx) relationshipListsSeparateRule(rule string) {
+	const pDT = "versions/1_0/doctransformer/didtransformer"
+	pk := c.Method(pDT, "Transformer", "processKeys")
+	if pk == nil {
+		c.Unresolved(rule, "(*didtransformer.Transformer).processKeys")
+		return
+	}
+	var bad []string
+	n := 0
+	for _, h := range append([]*ssa.Function{pk}, c.helpersOf(pk, 1)...) {
+		used := map[ssa.Value]string{}
+		forEachInstr(h, func(in ssa.Instruction) {
+			mu, ok := in.(*ssa.MapUpdate)
+			if !ok {
+				return
+			}
+			mm, isMM := mu.Map.(*ssa.MakeMap)
+			if !isMM || types.TypeString(mm.Type().Underlying(), nil) != "map[string][]interface{}" {
+				return
+			}
+			if _, isK := mu.Key.(*ssa.Const); !isK {
+				return
+			}
+			// the appends of the loop store append(m[k], …) back: those are not the literal's entries
+			if cl, isC := mu.Value.(*ssa.Call); isC {
+				if b, isB := cl.Call.Value.(*ssa.Builtin); isB && b.Name() == "append" {
+					return
+				}
+			}
+			n++
+			v := mu.Value
+			fresh := false
+			switch x := v.(type) {
+			case *ssa.MakeSlice:
+				fresh = true
+			case *ssa.Slice:
+				_, fresh = x.X.(*ssa.Alloc)
+			case *ssa.Const:
+				fresh = x.IsNil()
+			}
+			if k, isK := v.(*ssa.Const); isK && k.IsNil() {
+				return
+			}
+			if prev, dup := used[v]; dup {
+				bad = append(bad, fmt.Sprintf("%s: %s and %s start from the same slice", c.pos(mu.Pos()), prev, c.Path(mu.Key, nil)))
+			} else if !fresh {
+				bad = append(bad, fmt.Sprintf("%s: %s starts from %s, which is not a slice made for it", c.pos(mu.Pos()), c.Path(mu.Key, nil), c.Path(v, nil)))
+			}
+			used[v] = c.Path(mu.Key, nil)
+		})
+	}
+	c.Check(rule, "relationship-lists:separate-storage", len(bad) == 0, pk.Pos(), fmt.Sprintf("%d relationship list(s) started in a literal, each with storage of its own", n), bad...)
+}
+
+// threeWayLess: less has a single exit returning `cmp.Or(cmp.Compare(a1, b1), …, cmp.Compare(ak, bk)) < 0` (or a single
+// `cmp.Compare(a, b) < 0`; `> 0` gives neg): the compared pairs in order, as paths.
+func (c *Ctx) threeWayLess(less *ssa.Function) (terms [][2]string, neg bool, ok bool) {
+	rs := returnsOf(less)
+	if len(rs) != 1 || len(rs[0].Results) != 1 || len(less.Blocks) != 1 {
+		return nil, false, false
+	}
+	bo, isB := rs[0].Results[0].(*ssa.BinOp)
+	if !isB || c.Path(bo.Y, nil) != "0" || (bo.Op != token.LSS && bo.Op != token.GTR) {
+		return nil, false, false
+	}
+	neg = bo.Op == token.GTR
+	compareOf := func(v ssa.Value) ([2]string, bool) {
+		cl, isC := v.(*ssa.Call)
+		if !isC || cl.Call.StaticCallee() == nil || len(cl.Call.Args) != 2 {
+			return [2]string{}, false
+		}
+		g := cl.Call.StaticCallee()
+		if o := g.Origin(); o != nil {
+			g = o
+		}
+		if g.String() != "cmp.Compare" {
+			return [2]string{}, false
+		}
+		if bt, isBasic := cl.Call.Args[0].Type().Underlying().(*types.Basic); !isBasic || bt.Info()&types.IsInteger == 0 {
+			return [2]string{}, false // (floats have NaN, strings are not ranks)
+		}
+		return [2]string{c.Path(cl.Call.Args[0], nil), c.Path(cl.Call.Args[1], nil)}, true
+	}
+	if t, isT := compareOf(bo.X); isT {
+		return [][2]string{t}, neg, true
+	}
+	cl, isC := bo.X.(*ssa.Call)
+	if !isC || cl.Call.StaticCallee() == nil || len(cl.Call.Args) != 1 {
+		return nil, false, false
+	}
+	g := cl.Call.StaticCallee()
+	if o := g.Origin(); o != nil {
+		g = o
+	}
+	if g.String() != "cmp.Or" {
+		return nil, false, false
+	}
+	vs, okV := c.varargValues(cl.Call.Args[0])
+	if !okV || len(vs) == 0 {
+		return nil, false, false
+	}
+	for _, v := range vs {
+		t, isT := compareOf(v)
+		if !isT {
+			return nil, false, false
+		}
+		terms = append(terms, t)
+	}
+	return terms, neg, true
 }
